@@ -87,7 +87,7 @@ def run_tlc(module, cfg_text, workers=16, timeout=600, extra=(), env_extra=None,
     cfgp = os.path.join(wd, module + ".cfg")
     with open(cfgp, "w") as f:
         f.write(cfg_text)
-    cmd = ["java", "-XX:+UseParallelGC", *jvm, "-cp", JAR + ":" + CM, "tlc2.TLC", "-workers", str(workers),
+    cmd = ["java", "-XX:+UseParallelGC", "-XX:ParallelGCThreads=%d" % max(1, min(4, workers // 2)), *jvm, "-cp", JAR + ":" + CM, "tlc2.TLC", "-workers", str(workers),
            "-metadir", os.path.join(wd, "meta"), "-noGenerateSpecTE", "-config", cfgp, *extra,
            os.path.join(wd, module + ".tla")]
     env = dict(os.environ)
